@@ -629,7 +629,7 @@ pub fn gen_c13(rng: &mut Rng) -> Case {
   let mut target: Vec<String> = root_rel[..root_rel.len() - depth_up].iter().map(|s| s.to_string()).collect();
   target.push("outside".into());
   target.push("secret".into());
-  let kind = rng.below(13);
+  let kind = rng.below(16);
   let ups = vec!["..".to_string(); depth_up];
   // a long name made of multi-byte characters (diagnostics that abbreviate must not cut inside a character)
   let long_name = |rng: &mut Rng| -> String {
@@ -651,6 +651,9 @@ pub fn gen_c13(rng: &mut Rng) -> Case {
     9 => vec![ups.iter().map(|_| *rng.pick(&["..%2f", "..%2F", "%2e%2e/", "..\u{2215}", "..\u{ff0f}", "..;"])).collect::<Vec<_>>().join("") + "outside", "secret".to_string()],
     10 => ups.iter().cloned().chain([long_name(rng), "outside".to_string(), "secret".to_string()]).collect(),
     11 => vec![long_name(rng)].into_iter().chain(ups.iter().cloned()).chain(["..".to_string(), "outside".to_string(), "secret".to_string()]).collect(),
+    // an empty component ahead of the escape (a screen that trips over the empty one must still refuse, not crash)
+    13 => vec![String::new()].into_iter().chain(ups.iter().cloned()).chain(["outside".to_string(), "secret".to_string()]).collect(),
+    14 | 15 => ups.iter().cloned().chain(["outside".to_string(), "secret".to_string()]).collect(),
     12 => {
       // absolute component after an ordinary one (pushing an absolute path replaces everything before it)
       vec!["sub".to_string(), "<ABS>".to_string()]
@@ -678,6 +681,12 @@ pub fn gen_c13(rng: &mut Rng) -> Case {
   c.pieces.clear();
   for blk in concat.chunks(p as usize) {
     c.pieces.extend_from_slice(&sha1(blk));
+  }
+  if kind == 14 || kind == 15 {
+    // another entry with an empty / dot component, listed first
+    c.tree.insert("docs".into(), Node::Dir);
+    let odd = if kind == 14 { vec!["docs".to_string(), String::new()] } else { vec![String::new()] };
+    c.files.insert(0, TFile { path: odd, len: 0, md5: None });
   }
   c.label = format!("escape-kind-{kind}-at-{pos}");
   c
